@@ -73,6 +73,26 @@ pub enum MatchTypePattern {
 }
 
 impl MatchTypePattern {
+    /// The type names a `case <type>:` pattern can name; other identifiers that happen to
+    /// be types (`dyn`, `type`, `null_type`) are ordinary expressions in a pattern.
+    pub fn is_pattern_type(s: &str) -> bool {
+        matches!(
+            s,
+            "int"
+                | "uint"
+                | "float"
+                | "double"
+                | "string"
+                | "bool"
+                | "bytes"
+                | "list"
+                | "object"
+                | "null"
+                | "timestamp"
+                | "duration"
+        )
+    }
+
     pub fn from_type_str(s: &str) -> Self {
         match s {
             "int" => MatchTypePattern::Int,
